@@ -120,9 +120,9 @@ pub fn main<H: Harness>(h: H) {
 
 /// Address-space cap for processes that run the code under test (workers and replays): a runaway
 /// allocation then aborts that one process (reported as a crash of the exact case) instead of
-/// exhausting the machine. MC_WORKER_MEM_GB overrides the default of 6 GiB.
+/// exhausting the machine. MC_WORKER_MEM_GB overrides the default of 3 GiB (16 workers x 3 GiB stays below the 62 GB of the box).
 fn limit_memory() {
-    let gb: u64 = std::env::var("MC_WORKER_MEM_GB").ok().and_then(|s| s.parse().ok()).unwrap_or(6);
+    let gb: u64 = std::env::var("MC_WORKER_MEM_GB").ok().and_then(|s| s.parse().ok()).unwrap_or(3);
     let lim = libc::rlimit { rlim_cur: gb << 30, rlim_max: gb << 30 };
     unsafe {
         libc::setrlimit(libc::RLIMIT_AS, &lim);
